@@ -47,10 +47,15 @@ fn complete_response(data: &[u8]) -> bool {
 
 pub fn dispatch(name: &str, args: &[&str]) -> Option<String> {
     match name {
-        // shutdown <threads> <bind: v4|any> <states e.g. JIHSLW> <when: before|after|concurrent>
+        // shutdown <threads> <bind: v4|any|any6> <states e.g. JIHSLW> <when: before|after|concurrent>
         "shutdown" => {
             let threads: usize = args[0].parse().unwrap();
-            let bind_ip = if args[1] == "any" { "0.0.0.0" } else { "127.0.0.1" };
+            let bind_ip = match args[1] {
+                "any" => "0.0.0.0",
+                // dual-stack wildcard: IPv4 clients still reach it; the shutdown wake-up has to pick ::1
+                "any6" => "[::]",
+                _ => "127.0.0.1",
+            };
             let states = if args[2] == "-" { "" } else { args[2] };
             let when = args[3];
             // fits = every connection can have its own worker; otherwise some connections merely queue and only the
